@@ -208,8 +208,10 @@ class Ctx:
         }
         if self.replay_mode:
             return 1 if nviol else 0
-        os.makedirs(os.path.join(VERIF, "evidence"), exist_ok=True)
-        with open(os.path.join(VERIF, "evidence", self.prop + ".json"), "w") as fh:
+        # evidence/ describes /repo only; runs against another tree (VERIF_REPO=...) are recorded apart (not committed)
+        evdir = "evidence" if os.path.realpath(REPO) == "/repo" else "evidence_other"
+        os.makedirs(os.path.join(VERIF, evdir), exist_ok=True)
+        with open(os.path.join(VERIF, evdir, self.prop + ".json"), "w") as fh:
             json.dump(ev, fh, indent=1, default=str)
         for l in lines:
             print(l)
